@@ -137,7 +137,7 @@ def free_consts(t, acc=None, seen=None):
 
 def _boundary_values(w, rng, n):
     vals = {0, 1, (1 << w) - 1, 1 << (w - 1), (1 << (w - 1)) - 1, w & ((1 << w) - 1)}
-    while len(vals) < n + 6:
+    while len(vals) < min(n + 6, 1 << w):  # widths <= 3 have fewer than n + 6 values
         vals.add(rng.getrandbits(w))
     return list(vals)
 
